@@ -9,14 +9,15 @@ Objects:
   `needSpace`    Gen/LexGen.lean         main.c `need_space`, regenerated from the source on every run (with `ops[]`,
                                          `is_word_char`, the punctuator table `kw[]`, the pp-number sets, the is_ident ranges)
   `selfLexing a` the spelling `a`, scanned alone, is exactly one token spelled `a` (decidable, Model/Lex.lean).
-                 Every token of a -E output was produced by some call of `tokenize` (source text, `##` paste, `#` stringize,
-                 builtin macros).
+                 Every token `tokenize` produces has such a spelling (C19_lexed_tokens_self_lexing), and every token of a -E
+                 output was produced by some call of `tokenize` (source text, `##` paste, `#` stringize, builtin macros).
 
 Domain restriction (stated in checklib/C19.py ASSUMPTIONS): `tokenize_file` runs three text passes BEFORE `tokenize`
 (CR/LF, backslash-newline, \u escapes).  They are the identity on printed text unless a token is the lone `\` punctuator
 followed by a newline or by `uXXXX`; such a token never survives into a valid program.  The theorems are about `tokenize`.
 -/
 import ChibiVerif.Lemmas.LexSeq
+import ChibiVerif.Lemmas.LexClosure
 
 namespace ChibiVerif.Props.C19
 open ChibiVerif.Lex ChibiVerif.Gen.Lex
@@ -80,6 +81,22 @@ example :
     printTokens [⟨.ppnum, [49, 46], true, false⟩, ⟨.ident, [120], false, false⟩] = [49, 46, 32, 120, 10] ∧
     printTokens [⟨.ident, [76], true, false⟩, ⟨.str, [34, 115, 34], false, false⟩] = [76, 32, 34, 115, 34, 10] ∧
     spellings (lex [45, 32, 45, 49, 10]) = .ok [[45], [45], [49]] := by decide
+
+/-- **C19 (the tokens of `tokenize` satisfy the hypothesis).**  Whatever text is scanned, every token that comes out has a
+    self-lexing spelling — so `C19_roundtrip` applies to every token list the preprocessor can hold (all its tokens come
+    from calls of `tokenize`). -/
+theorem C19_lexed_tokens_self_lexing (s : List Nat) (ts : List Tok) (h : lex s = .ok ts) :
+    ∀ t ∈ ts, selfLexing t.text = true :=
+  lexLoop_tokens_selfLexing _ s true false ts h
+
+/-- non-vacuity: a text with every token class -/
+example : ∃ ts, lex [120, 43, 43, 49, 46, 101, 43, 32, 76, 34, 115, 34, 39, 99, 39, 10] = .ok ts ∧ ts.length = 5 :=
+  ⟨_, by decide, rfl⟩
+
+/-- **C19 (the model's loop bound is sufficient).**  `lex` never reports exhausted fuel: every iteration of the scanning
+    loop consumes input, so `length + 1` iterations suffice for every text. -/
+theorem C19_lex_fuel_suffices (s : List Nat) : lex s ≠ .error .fuel :=
+  lexLoop_no_fuel _ s true false (Nat.lt_succ_self _)
 
 /-- Full statement of the second half of the property for a preprocessor `pp` (a function on token lists):
     preprocessing the -E output again and printing it reproduces the text. -/
